@@ -209,7 +209,10 @@ macro_rules! impl_rank_small_sel {
                     .as_ref()
                     .chunks(Self::SUPERBLOCK_BIT_SIZE / usize::BITS as usize)
                 {
-                    let mut first = true;
+                    // Every superblock has an entry, even if no element of the
+                    // inventory falls in it: positions in inventory_begin must
+                    // be superblock indices.
+                    inventory_begin.push(inventory.len());
                     for (i, word) in superblock.iter().copied().enumerate() {
                         // Backend bits beyond the length of the bit vector (stale
                         // bits of the last word, spare words) are not ones of the vector
@@ -218,10 +221,6 @@ macro_rules! impl_rank_small_sel {
                         while past_ones + ones_in_word > next_quantum {
                             let in_word_index = word.select_in_word(next_quantum - past_ones);
                             let in_superblock_index = i * usize::BITS as usize + in_word_index;
-                            if first {
-                                inventory_begin.push(inventory.len());
-                                first = false;
-                            }
                             inventory.push(in_superblock_index as u32);
                             next_quantum += ones_per_inventory;
                         }
